@@ -207,6 +207,9 @@ func checkTeardownBeforeAnswer(c *report.Ctx) {
 			}
 		})
 		_, deferred := cl.(*ssa.Defer)
+		if !deferred && cl != nil && an.DeferOrigin(cl) {
+			deferred = true // the deferred call of an absorbed helper, placed at its exits by the normal form
+		}
 		c.Check("R-ORDER", "L/rapidcore.SandboxContext.Reset/handle-then-clear", "a sandbox reset is HandleReset followed by clearing the state", hr != nil && cl != nil && deferred, fpos(sr), 2, "%v", hr != nil && deferred)
 	}
 	if hr := fn(c, "L/rapid", "handleReset"); hr != nil {
